@@ -314,3 +314,99 @@ theorem serve_route_primary {σ τ : Type} (g : Gen σ) (h : Gen τ) (foreign : 
     rw [ih (fun r' hr' => hf r' (by simp [hr']))]
 
 end Pygom.Seed
+
+namespace Pygom.Seed
+open Pygom.Stoch
+
+/-! ### the streamed loop never runs short of variates (`Stop.starved` is an artefact of the list-based C04 model only) -/
+
+theorem newJumpTimes_isSome (rates ds : List Rat) (h : nPositive rates ≤ ds.length) : (newJumpTimes rates ds).isSome = true := by
+  induction rates generalizing ds with
+  | nil => simp [newJumpTimes]
+  | cons r rs ih =>
+    unfold newJumpTimes
+    by_cases hr : 0 < r
+    · simp only [hr, if_true]
+      cases ds with
+      | nil => simp [nPositive, List.countP_cons, hr] at h
+      | cons d ds' =>
+        have h' : nPositive rs ≤ ds'.length := by
+          simp [nPositive, List.countP_cons, hr] at h ⊢; omega
+        have := ih ds' h'
+        simpa using this
+    · simp only [hr, if_false]
+      have h' : nPositive rs ≤ ds.length := by
+        simp [nPositive, List.countP_cons, hr] at h ⊢; exact h
+      have := ih ds h'
+      simpa using this
+
+theorem firstReaction_not_starved (cols : List Vec) (rates : List Rat) (lims : List Lim) (x : Vec) (t : Rat) (expo : List Rat)
+    (h : allZero rates = true ∨ nPositive rates ≤ expo.length) : firstReaction cols rates lims x t expo ≠ .starved := by
+  unfold firstReaction
+  split
+  · simp
+  · rename_i hz
+    have hlen : nPositive rates ≤ expo.length := by
+      rcases h with h | h
+      · exact absurd h hz
+      · exact h
+    have hs := newJumpTimes_isSome rates expo hlen
+    split
+    · rename_i hn; simp [hn] at hs
+    · split <;> simp
+
+theorem ofFirst_starved {b : Branch} {o : Outcome} (h : ofFirst b o = .stop .starved) : o = .starved := by
+  cases o with
+  | checked r => simp only [ofFirst] at h; split at h <;> simp at h
+  | starved => rfl
+  | _ => simp [ofFirst] at h
+
+theorem expoReqs_length (rates : List Rat) : (expoReqs rates).length = nPositive rates := by
+  simp [expoReqs, nPositive, List.countP_eq_length_filter]
+
+/-- an iteration of the streamed loop is never short of variates -/
+theorem stepS_never_starved {σ : Type} (g : Gen σ) (s : Settings) (e : Eval) (exact : Bool) (x : Vec) (t : Rat) (st : σ) :
+    (stepS g s e exact x t st).1.out ≠ .stop .starved := by
+  rw [stepS_out]
+  simp only [stepS]
+  intro hst
+  cases exact with
+  | true =>
+    simp only [iter, iterIn, if_true] at hst
+    have := ofFirst_starved hst
+    refine firstReaction_not_starved _ _ _ _ _ _ ?_ this
+    by_cases hz : allZero e.rates = true
+    · exact Or.inl hz
+    · right
+      simp [reqs1, hz, serve_length, expoReqs_length]
+  | false =>
+    simp only [iter, iterIn, Bool.false_eq_true, if_false] at hst
+    by_cases hz : allZero e.rates = true
+    · have htl : ∀ p, tauLeap s e x t p = .zeroRates := by intro p; simp [tauLeap, hz]
+      rw [htl] at hst
+      simp only at hst
+      exact firstReaction_not_starved _ _ _ _ _ _ (Or.inl hz) (ofFirst_starved hst)
+    · cases htau : tauOf s e x with
+      | none =>
+        have htl : ∀ p, tauLeap s e x t p = .notSafe := by intro p; simp [tauLeap, hz, htau]
+        rw [htl] at hst
+        simp at hst
+      | some tau =>
+        have hp : (serve g (reqs1 s e false x) st).1.length = e.rates.length := by
+          simp [reqs1, hz, htau, serve_length, poisReqs]
+        have htl : tauLeap s e x t ((serve g (reqs1 s e false x) st).1.map natOf)
+            = .checked (checkJump x (vadd (applyCounts x e.cols (((serve g (reqs1 s e false x) st).1.map natOf).take e.rates.length)) (vscale e.pure tau))
+                s.lims t tau (((serve g (reqs1 s e false x) st).1.map natOf).take e.rates.length)) := by
+          simp [tauLeap, hz, htau, hp]
+        rw [htl] at hst
+        simp only at hst
+        split at hst
+        · simp at hst
+        · rename_i hsucc
+          have hrej : tauRejected s e x t ((serve g (reqs1 s e false x) st).1.map natOf) = true := by
+            simp only [tauRejected, htl]
+            simpa using hsucc
+          refine firstReaction_not_starved _ _ _ _ _ _ (Or.inr ?_) (ofFirst_starved hst)
+          simp [reqs2, hz, hrej, serve_length, expoReqs_length]
+
+end Pygom.Seed
